@@ -44,6 +44,10 @@ def run(ctx):
     for i, o in enumerate(use):
         cases.append({"kind": "config", "id": "init-%d" % i, "phase": "init", "opts": o})
         cases.append({"kind": "config", "id": "chg-%d" % i, "phase": "change", "base": i % 2, "opts": o})
+        # the chunker group also against stored fixed-size settings that are illegal for content-defined chunking
+        if any(k.startswith("chunk") for k in (o if isinstance(o, dict) else {})) or "chunk" in json.dumps(o):
+            for b in (2, 3):
+                cases.append({"kind": "config", "id": "chg-%d-b%d" % (i, b), "phase": "change", "base": b, "opts": o})
     pl = []
     for mu in LIMITS:
         for mr in (LIMITS if not q else ["0%", "100%", "101%", "unlimited", "1"]):
